@@ -116,7 +116,7 @@ pub fn run_lattice(ctx: &Ctx, cfgs: Vec<LifeCfg>) -> (Agg, Vec<String>) {
     let par = cfgs.len() >= 6;
     let errs: Vec<String> = if par {
         cfgs.par_iter()
-            .filter_map(|c| match explore(ctx, c, 2) {
+            .filter_map(|c| match { let t0 = std::time::Instant::now(); let r = explore(ctx, c, 2); if std::env::var("VERIF_DEBUG").is_ok() { eprintln!("cfg {} took {:.1}s", c.label(), t0.elapsed().as_secs_f64()); } r } {
                 Ok(s) => {
                     agg.add(&s);
                     None
@@ -378,6 +378,12 @@ pub fn c05_life_cfgs(ctx: &Ctx) -> Vec<LifeCfg> {
     }
     for (s, ms) in windows(&[hw(5, 4), hw(5, 4)], 2) {
         cfgs.push(cfg(ctx, Hid::S24, vec![hw(5, 4), hw(5, 4)], s, ms, 0, vec![]));
+    }
+    // the longest signatures: 8 levels of W1 on a 32-byte hash (69 868 bytes), and 7 levels (61 128 bytes)
+    for l in [7usize, 8] {
+        let params: Vec<Param> = (0..l).map(|_| hw(2, 1)).collect();
+        cfgs.push(cfg(ctx, Hid::S32, params.clone(), 0, Some(2), 0, vec![]));
+        cfgs.push(cfg(ctx, Hid::S32, params.clone(), (1u64 << (2 * l)) - 2, None, 0, vec![]));
     }
     if th {
         for h in ALL_HASHES {
